@@ -240,11 +240,11 @@ SC = dict(
 
 # ----------------------------------------------------------------------------- C08: schedules of StateCacheConc.tla replayed on goroutines
 
-def _conc_cfg(d, name, algo, writes, committers, readers, invs, view=True):
+def _conc_cfg(d, name, algo, writes, committers, readers, invs, view=True, serialised=True):
     with open(os.path.join(d, "StateCacheConc_%s.cfg" % name), "w") as f:
-        f.write("SPECIFICATION Spec\nCONSTANTS\n  Algo = \"%s\"\n  Blocks <- MCBlocks\n  Writes <- %s\n"
+        f.write("SPECIFICATION Spec\nCONSTANTS\n  Serialised = %s\n  Algo = \"%s\"\n  Blocks <- MCBlocks\n  Writes <- %s\n"
                 "  PreCommitted = 2\n  Committers <- %s\n  Readers <- %s\nINVARIANTS %s\n%sCHECK_DEADLOCK FALSE\n"
-                % (algo, writes, committers, readers, invs, "VIEW View\n" if view else ""))
+                % ("TRUE" if serialised else "FALSE", algo, writes, committers, readers, invs, "VIEW View\n" if view else ""))
     return "StateCacheConc_%s.cfg" % name
 
 
@@ -283,6 +283,9 @@ def run_c08(prop, tier, seed):
     cfg = _conc_cfg(d, "mut", "probe_then_link", "WritesB", "CB", "R_B", safety)
     vlib.design_check(d, "StateCacheConc_MC", cfg, workers=1, timeout=120, expect_violation="HitIsTruth")
     log("design mutant (probe_then_link) violates HitIsTruth as expected (anti-vacuity)")
+    cfg = _conc_cfg(d, "mutlock", "link_then_probe", "WritesFreshBC", "CBC", "R_BC", "Found", serialised=False)
+    vlib.design_check(d, "StateCacheConc_MC", cfg, workers=1, timeout=120, expect_violation="Found")
+    log("design mutant (commits not serialised by the global lock) violates Found as expected (anti-vacuity)")
     # 2. schedules: every maximal schedule of 1 committer + 1 reader (both step orders), samples of bigger scopes
     hist = os.path.join(d, "sched.ndjson")
     nh = 0
@@ -299,11 +302,20 @@ def run_c08(prop, tier, seed):
         for wr in ("WritesB", "WritesBC"):
             for rd in ("R_BB", "R_BC", "R_A1C"):
                 gens.append(("link_then_probe", wr, "CB", rd, None))   # every 1C+2R schedule
+    # adversarial schedules: interleavings of two commits that the global lock is there to exclude (behaviours of the
+    # unserialised design mutant).  On the code as it stands they are infeasible (the second commit blocks, the replay
+    # lets the others run on); if the code stops serialising commits they run as written and are judged like all others
+    for wr in ("WritesFreshBC", "WritesBC", "WritesB"):
+        for rd in ("R_BC", "R_BB"):
+            gens.append(("adv", wr, "CBC", rd, 60 if tier == "quick" else 1500))
     gjobs = []
     gi = 0
     for (algo, wr, cm, rd, num) in gens:
         gi += 1
-        cfg = _conc_cfg(d, "g%d" % gi, algo, wr, cm, rd, "Emit", view=False)
+        if algo == "adv":
+            cfg = _conc_cfg(d, "g%d" % gi, "link_then_probe", wr, cm, rd, "Emit", view=False, serialised=False)
+        else:
+            cfg = _conc_cfg(d, "g%d" % gi, algo, wr, cm, rd, "Emit", view=False)
         extra = ["-simulate", "num=%d" % num, "-depth", "60", "-seed", str(seed + gi)] if num else []
         gjobs.append((gi, cfg, extra))
 
@@ -361,7 +373,9 @@ C08 = dict(
     distinct=lambda s: s.get("distinct_schedules", 0),
     rule="schedules = every maximal interleaving (at the granularity of shared-map accesses = yield points) of 1 committer + 1 "
          "reader for every reader placement (ancestor / committing block / descendant) and write pattern, emitted by TLC from "
-         "StateCacheConc.tla for both step orders, plus TLC -simulate samples of 2 committers + 2..3 readers; each replayed "
+         "StateCacheConc.tla for both step orders, plus TLC -simulate samples of 2 committers + 2..3 readers, plus ADVERSARIAL "
+         "schedules (behaviours of the design mutant whose commits are not serialised by the global lock: infeasible on the code "
+         "as long as it serialises commits - a blocked goroutine is detected by a short timeout and the others run on); each replayed "
          "deterministically on real goroutines through the verif yield hook; plus free-running 8-committer/32-reader runs under "
          "the Go race detector; distinct_nontrivial = distinct schedules replayed",
     summary_keys=["schedules", "stress_runs"],
@@ -545,7 +559,7 @@ def _wmpt_ops(events):
 
 WMPT = dict(
     name="wmpt", component="wmpt", trace_module="WMPTTrace", trace_cfg="WMPTTrace.cfg",
-    design={"quick": [("WMPT_MC", "WMPT_MC.cfg")], "thorough": [("WMPT_MC", "WMPT_MC.cfg")]},
+    design={"quick": [("WMPT_MC", "WMPT_MCq.cfg")], "thorough": [("WMPT_MC", "WMPT_MC.cfg")]},
     gen={"quick": [dict(module="WMPT_MC", cfg="WMPT_gen_sim.cfg", workers=1,
                         extra=["-simulate", "num=1200", "-depth", "20", "-seed", "{seed}"])],
          "thorough": [dict(module="WMPT_MC", cfg="WMPT_gen_ex.cfg", workers=1, timeout=3000),
@@ -554,7 +568,7 @@ WMPT = dict(
     exec_args=lambda tier, seed: (["-n", 1200] if tier == "quick" else ["-n", 30000]),
     flags={"C09": {"weight", "change", "owner", "root", "rootfn", "range", "res", "unknown-op"},
            "C11": {"durable", "commitincomplete", "reopen", "storekeys"},
-           "C13": {"rollbackroot", "rollbackweight", "rollbackdamage", "rollbackleft", "rollbackreopen"}},
+           "C13": {"rollbackroot", "rollbackweight", "rollbackdamage", "rollbackleft", "rollbackreopen", "rollbackdurable"}},
     distinct=lambda s: s.get("distinct_signatures", 0),
     rule="histories = (a) behaviours of WMPT.tla (update/delete/commit at levels 0,1,3/gc/reload/readroot/owners/saveroot/"
          "rollback) emitted by TLC -simulate (thorough: plus every behaviour of depth 4 over 2 keys); (b) seeded random histories "
@@ -579,17 +593,19 @@ def _proof_ops(events):
 PROOF = dict(
     name="proof", component="proof", trace_module="WMPTProofTrace", trace_cfg="WMPTProofTrace.cfg",
     design={"quick": [("WMPTProof_MC", "WMPTProof_soundq.cfg")], "thorough": [("WMPTProof_MC", "WMPTProof_sound.cfg")]},
-    mutants={"quick": [("WMPTProof_MC", "WMPTProof_reweight.cfg", "Sound")],
-             "thorough": [("WMPTProof_MC", "WMPTProof_reweight.cfg", "Sound")]},
+    mutants={"quick": [("WMPTProof_MC", "WMPTProof_reweight.cfg", "Sound"), ("WMPTProof_MC", "WMPTProof_imitate.cfg", "Sound")],
+             "thorough": [("WMPTProof_MC", "WMPTProof_reweight.cfg", "Sound"), ("WMPTProof_MC", "WMPTProof_imitate.cfg", "Sound")]},
     gen={"quick": [dict(module="WMPTProof_MC", cfg="WMPTProof_genq.cfg", workers=12, timeout=1200)],
          "thorough": [dict(module="WMPTProof_MC", cfg="WMPTProof_gen3.cfg", workers=12, timeout=3000)]},
     exec_args=lambda tier, seed: (["-n", 300] if tier == "quick" else ["-n", 20000]),
     flags={"C10": {"honest", "forged", "panic"}},
     distinct=lambda s: s.get("distinct_outcome_classes", 0),
     rule="proofs = (a) every (trie, block, sequence of <=2 structured edits: re-weight siblings keeping the sum, swap sibling slots, "
-         "change a claimed weight, change the value, drop/duplicate an element, splice in the tail of another block's proof) explored "
+         "change a claimed weight, change the value, drop/duplicate an element, splice in the tail of another block's proof, pass a branch's hash preimage off as a "
+         "value record) explored "
          "by TLC in WMPTProof.tla, applied by structural index to the real honest proof bytes and submitted to the real verifier; "
-         "(b) honest proofs of random tries of 3-42 keys and byte-level tampering (bit flips, truncation, other block, other trie); "
+         "(b) honest proofs of random tries of 3-42 keys and byte-level tampering (bit flips, truncation, other block, other trie, preimage of a branch / "
+         "short record as value record); "
          "distinct_nontrivial = distinct (trie size, block, edit kinds, outcome) classes",
     summary_keys=["rejected", "verified_to_trusted_root", "verified_to_other_root", "model_forged_plans", "panics", "go_histories"],
     ops_of=_proof_ops,
@@ -609,7 +625,7 @@ def _wpath_ops(events):
 
 WPATH = dict(
     name="wpath", component="wpath", trace_module="WMPTPathTrace", trace_cfg="WMPTPathTrace.cfg",
-    design={"quick": [("WMPT_MC", "WMPT_MC.cfg")], "thorough": [("WMPT_MC", "WMPT_MC.cfg")]},
+    design={"quick": [("WMPT_MC", "WMPT_MCq.cfg")], "thorough": [("WMPT_MC", "WMPT_MC.cfg")]},
     gen={"quick": [dict(module="WMPTPath", cfg="WMPTPath.cfg", workers=8),
                    dict(module="WMPTPath", cfg="WMPTPath_shape.cfg", workers=8)],
          "thorough": [dict(module="WMPTPath", cfg="WMPTPath_big.cfg", workers=12, timeout=3000),
